@@ -241,7 +241,7 @@ def run_shard(params: dict, ctx) -> None:
     seqs = [list(s) for n in range(1, params["maxc"] + 1) for s in itertools.product(PIECES, repeat=n)]
     scripts = [list(s) for n in range(0, params["maxs"] + 1) for s in itertools.product(ACTIONS, repeat=n)]
     for chunks in seqs:
-        if ctx.viol_total > 200:
+        if ctx.should_stop(200):
             break
         for script in scripts:
             delays = [rng.choice(DELAYS) for _ in range(len(script))]
